@@ -639,6 +639,32 @@ func liveStored(r *engine.Run, rule string, f *ssa.Function) {
 		cons := o.next(fn(f) + "|live entry")
 		ld, isLoad := mu.Value.(*ssa.UnOp)
 		if !isLoad {
+			// built by a package-local constructor: every return of it is a new composite with deleted unset
+			if c, ok := mu.Value.(*ssa.Call); ok {
+				if h := c.Call.StaticCallee(); h != nil && h.Pkg == f.Pkg && len(h.Blocks) > 0 {
+					fresh := true
+					for _, ret := range engine.Returns(h) {
+						if len(ret.Results) != 1 {
+							fresh = false
+							continue
+						}
+						l2, ok := ret.Results[0].(*ssa.UnOp)
+						if !ok {
+							fresh = false
+							continue
+						}
+						a2, ok := engine.AddrRoot(l2.X).(*ssa.Alloc)
+						if !ok || liveEntryDefect(r, a2) != "" {
+							fresh = false
+						}
+					}
+					if fresh {
+						r.Touch(h)
+						r.OK(rule, cons, r.P.Pos(mu.Pos()), "Set stores the new live entry built by "+fn(h))
+						return
+					}
+				}
+			}
 			r.Fail(rule, cons, r.P.Pos(mu.Pos()), "Set stores an entry it did not build itself")
 			return
 		}
@@ -647,6 +673,15 @@ func liveStored(r *engine.Run, rule string, f *ssa.Function) {
 			r.Undec(rule, cons, r.P.Pos(mu.Pos()), "stored entry is not a local composite")
 			return
 		}
+		bad := liveEntryDefect(r, al)
+		r.Check(bad == "", rule, cons, r.P.Pos(mu.Pos()), "Set stores a new entry with deleted=false",
+			"Set does not store a new live entry: "+bad+" - a Set that follows a Remove of the same key in one transaction inherits the tombstone flag, and the write is committed as a removal (lookups at the block and its descendants miss the block's own write)")
+	})
+}
+
+// liveEntryDefect: why the composite in al is not a new live entry ("" when it is).
+func liveEntryDefect(r *engine.Run, al *ssa.Alloc) string {
+	{
 		bad := ""
 		for _, ref := range engine.Referrers(al) {
 			switch x := ref.(type) {
@@ -669,9 +704,8 @@ func liveStored(r *engine.Run, rule string, f *ssa.Function) {
 				}
 			}
 		}
-		r.Check(bad == "", rule, cons, r.P.Pos(mu.Pos()), "Set stores a new entry with deleted=false",
-			"Set does not store a new live entry: "+bad+" - a Set that follows a Remove of the same key in one transaction inherits the tombstone flag, and the write is committed as a removal (lookups at the block and its descendants miss the block's own write)")
-	})
+		return bad
+	}
 }
 
 // tombstoneStored: every entry stored by a remove method has deleted=true.
@@ -1151,6 +1185,32 @@ func freshWrite(r *engine.Run, rule string) {
 				if al, isAlloc := engine.AddrRoot(ld.X).(*ssa.Alloc); isAlloc {
 					l, found := fl.CellAt(ld, al, ".data")
 					good = found && l == 0
+				}
+			}
+			// the entry built by a package-local constructor: the same requirement on each of its returns
+			if c, isCall := mu.Value.(*ssa.Call); isCall && !good {
+				if h := c.Call.StaticCallee(); h != nil && h.Pkg == f.Pkg && len(h.Blocks) > 0 && h.Signature.Recv() == nil {
+					fl2 := engine.RunFlow(h, spec)
+					all, any := true, false
+					for _, ret := range engine.Returns(h) {
+						ok2 := false
+						if len(ret.Results) == 1 {
+							if ld, isLoad := ret.Results[0].(*ssa.UnOp); isLoad {
+								if al, isAlloc := engine.AddrRoot(ld.X).(*ssa.Alloc); isAlloc {
+									l, found := fl2.CellAt(ld, al, ".data")
+									ok2 = found && l == 0
+								}
+							}
+						}
+						any = true
+						if !ok2 {
+							all = false
+						}
+					}
+					if all && any {
+						good = true
+						r.Touch(h)
+					}
 				}
 			}
 			r.Check(good, rule, o.next(fn(f)+"|stored data"), r.P.Pos(mu.Pos()), "the stored entry's data is the result of Clone()",
